@@ -12,10 +12,11 @@ from .lazy import LazyMixin
 from .glue import GlueMixin
 from .frame import FrameMixin
 from .gather import GatherMixin
+from .windows import WindowMixin
 from .stmts import NORMAL, RETURN, RAISE
 
 
-class Engine(FrameMixin, GlueMixin, GatherMixin, LazyMixin, NpMixin, Exec):
+class Engine(FrameMixin, GlueMixin, WindowMixin, GatherMixin, LazyMixin, NpMixin, Exec):
     pass
 
 
